@@ -121,9 +121,12 @@ def scalar_rules(F, R):
                 continue
             got = sorted(norm(r, selfty, nat) for r in the_return(body))
             # the native type must be the one matching (N, S)
-            R.ob("D1.delegation", short, "%s::%s" % key, got == sorted(exp[key]),
+            # equivalent spellings: num-traits' own Bounded impl of the native type is `MIN`/`MAX` (bounded_impl! in num-traits, a pinned dependency)
+            alt = [["W(<NAT as num_traits::bounds::Bounded>::%s())" % key[1]]] if tr == "Bounded" else []
+            okd = got == sorted(exp[key]) or got in alt
+            R.ob("D1.delegation", short, "%s::%s" % key, okd,
                  "%s: %s::%s delegates to the native %s operation%s" % (short, tr, im["method"], nat,
-                                                                          "" if got == sorted(exp[key]) else " -- found %s, expected %s" % (got, sorted(exp[key]))),
+                                                                          "" if okd else " -- found %s, expected %s" % (got, sorted(exp[key]))),
                  where=b["span"])
             seen.add(key)
             if len(R.samples) < 8 and key in (("inherent", "from_native"), ("Add", "add"), ("Ord", "cmp")):
